@@ -101,6 +101,10 @@ impl Database {
         if file_len < min_len {
             file.set_len(min_len as u64)?;
             file.sync_all()?;
+            #[cfg(feature = "verif_hooks")]
+            verif::io(|| verif::IoEvent::SetLen { file: verif::FileId::Data, len: min_len });
+            #[cfg(feature = "verif_hooks")]
+            verif::io(|| verif::IoEvent::Sync { file: verif::FileId::Data });
             file_len = min_len;
         }
 
@@ -159,6 +163,8 @@ impl Database {
             self, target_len, len
         );
         file.set_len(target_len as u64)?;
+        #[cfg(feature = "verif_hooks")]
+        verif::io(|| verif::IoEvent::SetLen { file: verif::FileId::Data, len: target_len });
         self.0.cached_file_len.store(target_len, Ordering::Relaxed);
         *mmap = create_mmap(&file)?;
         Ok(())
@@ -218,6 +224,8 @@ impl Database {
 
     #[inline]
     pub(crate) fn write(&self, start: usize, data: &[u8]) {
+        #[cfg(feature = "verif_hooks")]
+        verif::io(|| verif::IoEvent::Write { file: verif::FileId::Data, offset: start, data: data.to_vec() });
         write_to_mmap(&self.mmap(), start, data);
     }
 
@@ -238,6 +246,8 @@ impl Database {
         }
 
         let mmap = self.mmap();
+        #[cfg(feature = "verif_hooks")]
+        verif::io(|| verif::IoEvent::Write { file: verif::FileId::Data, offset: dst, data: mmap[src..src_end].to_vec() });
         write_to_mmap(&mmap, dst, &mmap[src..src_end]);
         Ok(())
     }
@@ -353,6 +363,8 @@ impl Database {
 
         if flush_start < flush_end {
             let mmap = self.mmap();
+            #[cfg(feature = "verif_hooks")]
+            verif::io(|| verif::IoEvent::FlushAsync { file: verif::FileId::Data, offset: flush_start, len: flush_end - flush_start });
             if let Err(e) = mmap.flush_async_range(flush_start, flush_end - flush_start) {
                 drop(mmap);
                 for (region, bounds) in dirty_regions {
@@ -367,6 +379,8 @@ impl Database {
         // Data must be durable before metadata (crash safety).
         self.regions().flush()?;
         self.file().sync_data()?;
+        #[cfg(feature = "verif_hooks")]
+        verif::io(|| verif::IoEvent::Sync { file: verif::FileId::Data });
         self.regions().sync_data()?;
         for (region, _) in &dirty_regions {
             region.meta().mark_clean();
@@ -512,6 +526,8 @@ impl Database {
             debug!("{}: punch_holes syncing after {} punches", self, punched);
             let file = self.file();
             file.sync_data()?;
+            #[cfg(feature = "verif_hooks")]
+            verif::io(|| verif::IoEvent::Sync { file: verif::FileId::Data });
         }
 
         Ok(())
